@@ -137,17 +137,20 @@ Definition nokw : kwargs := mkkw None None None None.
 Fixpoint digits_fuel (fuel : nat) (z : Z) (acc : list N) : list N :=
   match fuel with
   | O => acc
-  | S f => let acc' := Z.to_N (48 + z mod 10) :: acc in
-           if z <? 10 then acc' else digits_fuel f (z / 10) acc'
+  | S f => let '(q, r) := Z.div_eucl z 10 in
+           let acc' := Z.to_N (48 + r) :: acc in
+           if q =? 0 then acc' else digits_fuel f q acc'
   end.
 Definition render_nat (z : Z) : list N := digits_fuel (S (Z.to_nat (Z.log2 z))) z [].
 Definition render_Z (z : Z) : list N := if z <? 0 then 45%N :: render_nat (- z) else render_nat z.
 (* len(str(c)) for c >= 0 *)
 Definition ndig (c : Z) : Z := zlen (render_nat c).
 
-(* str(int): ValueError beyond the interpreter's digit limit *)
+(* str(int): ValueError beyond the interpreter's digit limit (more than L digits, i.e.
+   |z| >= 10^L; the first test is a shortcut: |z| < 2^(3L) <= 10^L) *)
 Definition str_of_int (z : Z) : res (list N) :=
-  if int_max_str_digits <? ndig (Z.abs z) then RErr XValue else ROk (render_Z z).
+  if Z.log2 (Z.abs z) <? 3 * int_max_str_digits then ROk (render_Z z)
+  else if 10 ^ int_max_str_digits <=? Z.abs z then RErr XValue else ROk (render_Z z).
 
 (* int(bytes): the buffer is parsed as ASCII; any byte >= 128 is invalid *)
 Definition py_int_bytes (b : list N) : res Z :=
@@ -649,5 +652,7 @@ Definition notab : otab := mkotab [] [] [] [] [] [].
 Definition pdec (neg : bool) (c e : Z) : pyval := PDecimal (DFin neg c e).
 (* text packed big-endian in base 2^21 (Model/C08.v unpack) *)
 Definition tx (len v : N) : list N := unpack len v.
+(* a big integer from 960-bit limbs, most significant first *)
+Definition zcat (l : list Z) : Z := fold_left (fun a c => a * 2 ^ 960 + c) l 0.
 Definition bx (len v : N) : list N :=
   fst (N.iter len (fun st => (N.land (snd st) 255 :: fst st, N.shiftr (snd st) 8)) ([], v)).
